@@ -3419,7 +3419,10 @@ static void state_write_content(struct snapraid_state* state, uint32_t* out_crc)
 			if (info) {
 				time_t info_time = info_get_time(info);
 
-				if (!info_oldest || info_time < info_oldest)
+				/* ignore the blocks without a time, like the ones marked bad */
+				/* before being synced, otherwise they restart the search */
+				/* and the older blocks get saved with a newer time */
+				if (info_time != 0 && (!info_oldest || info_time < info_oldest))
 					info_oldest = info_time;
 
 				if (info_get_rehash(info))
